@@ -600,6 +600,12 @@ bool pd_ext_e(int nt, char **tok)
         ret(err);
         return true;
     }
+    if (!strcmp(c, "xattach") && nt >= 2) {
+        struct obj *o = find_pipe(tok[1]);
+        if (o == NULL || o->upipe == NULL) { ret(-1); return true; }
+        ret(upipe_attach_upump_mgr(o->upipe));
+        return true;
+    }
     if (!strcmp(c, "loop") && nt >= 2) {
         int k = tok[1][0] == 'B' ? 1 : 0;
         unsigned n = vloop_run_once(loop_get(k));
